@@ -14,12 +14,16 @@ class Inexact(Exception):
     pass
 
 
-def mesh_rec(m):
-    p = np.asarray(m.points, dtype=float) * SC
+NCORNER = {"line": 2, "triangle": 3, "quad": 4, "tetra": 4, "hexahedron": 8}
+
+
+def mesh_rec(m, as_type=None, scale=1):
+    """as_type: cell type to log for point sets without one (corner skeleton of the parent); scale: extra integer factor on the coordinates"""
+    p = np.asarray(m.points, dtype=float) * SC * scale
     pi = np.rint(p)
     if np.abs(p - pi).max() > 1e-6:
         raise Inexact()
-    return {"type": str(m.cell_type), "dim": int(m.points.shape[1]), "pts": [qi(x) for x in pi], "cells": [qi(c) for c in m.cells]}
+    return {"type": str(as_type or m.cell_type), "dim": int(m.points.shape[1]), "pts": [qi(x) for x in pi], "cells": [qi(c) for c in m.cells]}
 
 
 def seed(name):
@@ -80,6 +84,15 @@ def apply(op, m):
         hexa = m.cell_type == "hexahedron"
         return [("midpoints", {"edges": True, "faces": True, "volumes": bool(hexa)}, [m],
                  m.convert(order=2, calc_points=True, calc_midfaces=True, calc_midvolumes=bool(hexa)))]
+    # simplex face / cell centroids are thirds / quarters: the whole record (parents and child) is logged on a 3x / 4x finer lattice
+    if k[0] == "midfaces":
+        return [("midpoints", {"edges": False, "faces": True, "volumes": False, "as_type": m.cell_type,
+                               "scale": 3 if m.cell_type in ("triangle", "tetra") else 1}, [m], m.add_midpoints_faces())]
+    if k[0] == "midvolumes":
+        return [("midpoints", {"edges": False, "faces": False, "volumes": True, "as_type": m.cell_type,
+                               "scale": 4 if m.cell_type == "tetra" else 1}, [m], m.add_midpoints_volumes())]
+    if k[0] == "centroids":
+        return [("centroids", {"as_type": m.cell_type, "scale": 3 if m.cell_type == "triangle" else 1}, [m], m.convert(order=0, calc_points=True))]
     if k[0] == "concatmerge":
         shift = float(m.points[:, 0].max() - m.points[:, 0].min())
         m2 = m.translate(shift, axis=0)
@@ -133,8 +146,9 @@ def main():
                     for s, (opname, ar, parents, child) in enumerate(steps):
                         rid = key if s == len(steps) - 1 else key + "#" + opname
                         if out.want(rid):
-                            out.write({"id": rid, "op": opname, "nt": True, "args": ar, "parents": [mesh_rec(p) for p in parents],
-                                       "child": mesh_rec(child)})
+                            out.write({"id": rid, "op": opname, "nt": True, "args": {k_: v_ for k_, v_ in ar.items() if k_ not in ("as_type", "scale")},
+                                       "parents": [mesh_rec(p, scale=ar.get("scale", 1)) for p in parents],
+                                       "child": mesh_rec(child, as_type=ar.get("as_type"), scale=ar.get("scale", 1))})
             except Inexact:
                 cache[key] = None          # every operation used here maps the lattice to itself
                 out.write({"id": key, "op": "offlattice", "nt": True, "args": {}, "parents": [], "child": {}})
